@@ -381,12 +381,12 @@ fn run_jobs(jobs: &[Job], thorough: bool, t0: Instant, seed: u64) -> Vec<JobResu
     results
 }
 
-fn result_to_json(r: &JobResult) -> Value {
+pub fn result_to_json(r: &JobResult) -> Value {
     json!({
         "name": r.name, "engine": r.engine, "bound": r.bound, "states": r.states, "transitions": r.transitions, "runs": r.runs,
         "distinct_outcomes": r.distinct_outcomes, "nontrivial_outcomes": r.nontrivial_outcomes, "level_completed": r.level_completed,
         "capped": r.capped, "depth_capped": r.depth_capped, "rechecks": r.rechecks, "evaluations": r.evaluations, "nontrivial": r.nontrivial,
-        "samples": r.samples, "error": r.error, "rule": r.rule, "exhaustive": r.exhaustive,
+        "samples": r.samples, "error": r.error, "rule": r.rule, "exhaustive": r.exhaustive, "extra": r.extra,
         "found": r.found.iter().map(|f| json!({"property": f.violation.property, "clause": f.violation.clause, "shape": f.violation.shape, "detail": f.violation.detail, "cost": f.cost, "replay": f.replay})).collect::<Vec<_>>(),
     })
 }
@@ -395,9 +395,9 @@ fn leak(s: &str) -> &'static str {
     Box::leak(s.to_string().into_boxed_str())
 }
 
-fn result_from_json(v: &Value) -> JobResult {
+pub fn result_from_json(v: &Value, suffix: &str) -> JobResult {
     let mut r = JobResult {
-        name: format!("{} [wrapping build]", v["name"].as_str().unwrap_or("")),
+        name: format!("{}{}", v["name"].as_str().unwrap_or(""), suffix),
         engine: v["engine"].as_str().unwrap_or("").to_string(),
         bound: v["bound"].as_u64().unwrap_or(0) as u32,
         states: v["states"].as_u64().unwrap_or(0),
@@ -415,11 +415,14 @@ fn result_from_json(v: &Value) -> JobResult {
         error: v["error"].as_str().map(|s| s.to_string()),
         rule: v["rule"].as_str().map(|s| s.to_string()),
         exhaustive: v["exhaustive"].as_bool().unwrap_or(false),
+        extra: v["extra"].as_object().map(|o| o.iter().map(|(k, v)| (k.clone(), v.clone())).collect()).unwrap_or_default(),
         ..Default::default()
     };
     for f in v["found"].as_array().cloned().unwrap_or_default() {
         let mut replay = f["replay"].clone();
-        replay["build"] = json!("wrapping (profile mcw)");
+        if !suffix.is_empty() {
+            replay["build"] = json!(suffix.trim());
+        }
         r.found.push(FoundAny {
             violation: Violation {
                 property: leak(f["property"].as_str().unwrap_or("")),
@@ -445,7 +448,7 @@ fn run_sub(id: &str, thorough: bool) -> Result<Vec<JobResult>, String> {
         return Err(format!("{} failed: {}", exe, String::from_utf8_lossy(&out.stderr)));
     }
     let v: Value = serde_json::from_slice(&out.stdout).map_err(|e| format!("bad output from {}: {}", exe, e))?;
-    Ok(v.as_array().cloned().unwrap_or_default().iter().map(result_from_json).collect())
+    Ok(v.as_array().cloned().unwrap_or_default().iter().map(|x| result_from_json(x, " [wrapping build]")).collect())
 }
 
 fn trunc(s: &str, n: usize) -> String {
@@ -617,6 +620,13 @@ fn main() {
         let jobs = suite::jobs(&id, thorough);
         let res = run_jobs(&jobs, thorough, Instant::now(), seed);
         println!("{}", Value::Array(res.iter().map(result_to_json).collect()));
+        return;
+    }
+    if args[1] == "__flog" {
+        // engine F with logging on needs a process of its own (tracing's global subscriber)
+        let thorough = args.get(2).map(|t| t == "thorough").unwrap_or(false);
+        let r = engine_f::run(thorough, 1, "F/logging");
+        println!("{}", result_to_json(&r));
         return;
     }
     if args[1] == "replay" {
